@@ -317,6 +317,17 @@ func (mq *memtableQueue) Rotate() {
 	mq.rotateNoLock()
 }
 
+// rotateIfNonEmpty freezes the mutable memtable if it holds documents, so that a
+// following flush persists them too.
+func (mq *memtableQueue) rotateIfNonEmpty() {
+	mq.mu.Lock()
+	defer mq.mu.Unlock()
+
+	if mq.mutable.count() > 0 {
+		mq.rotateNoLock()
+	}
+}
+
 // rotateNoLock performs rotation without acquiring the lock.
 // Must be called with mq.mu held.
 func (mq *memtableQueue) rotateNoLock() {
